@@ -78,6 +78,35 @@ class Closure:
         s.node, s.env = node, env
 
 
+class LoopBreak(Exception):
+    pass
+
+
+class SymRange:
+    """range(n) with a symbolic n: iterated only by comprehensions whose element is parametric in the loop variable"""
+
+    def __init__(s, n):
+        s.n = D(n)
+
+
+class SymIndex:
+    """the loop variable of a comprehension over a symbolic range: a generic position `var` of an axis of size n"""
+
+    def __init__(s, var):
+        s.var = var
+
+
+class SymList:
+    """[elt(i) for i in range(n)] with symbolic n: `value` is elt evaluated once at the generic position(s) `vars`"""
+
+    def __init__(s, vars_, value):
+        s.vars, s.value = tuple(vars_), value
+
+
+class LoopContinue(Exception):
+    pass
+
+
 class BoundMethod:
     def __init__(s, obj, owner, fn):
         s.obj, s.owner, s.fn = obj, owner, fn
@@ -126,6 +155,8 @@ class SuperProxy:
 
 class IdxArr:
     """A static-shape integer index array (input `indices`, arange, setxor1d result, constant list)."""
+
+    mesh = None      # (position, rank) when the index array was reshaped to broadcast as one axis of an open mesh (idx[:, None], idx[None, :])
 
     def __init__(s, name, size, kind="generic", lo=None, values=None, inverse=False, parts=None):
         # kind: generic | arange | const | perm (permutation of a whole axis; inverse=True: its inverse) | compose (parts[0][parts[1]])
@@ -230,6 +261,15 @@ class Interp:
                 return o.ndim
             if name == "T":
                 return nf.transpose(o)
+            if name == "mT":
+                if len(o.axes) < 2:
+                    raise PyRaise("ValueError", ".mT of an array of rank < 2", s.site)
+                return nf.swapaxes(o, -1, -2)
+            if name == "size":
+                t = D(1)
+                for x in o.shape:
+                    t = t * x
+                return t
             if name == "at":
                 return AtProxy(o)
             if name == "dtype":
@@ -471,6 +511,22 @@ class Interp:
             raise PyRaise(name, msg, s.site)
         elif isinstance(st, ast.Pass):
             return
+        elif isinstance(st, ast.For):
+            # loops over a concrete python iterable (static range / list / zip / enumerate) are unrolled
+            if st.orelse:
+                raise Undecided("for ... else")
+            for item in s.concrete_iter(s.ev(st.iter, env), st.iter):
+                s.assign(st.target, item, env)
+                try:
+                    s.block(st.body, env)
+                except LoopBreak:
+                    break
+                except LoopContinue:
+                    continue
+        elif isinstance(st, ast.Break):
+            raise LoopBreak()
+        elif isinstance(st, ast.Continue):
+            raise LoopContinue()
         elif isinstance(st, (ast.Import, ast.ImportFrom)):
             tab = {}
             s.prog._scan_import(env.mod, st, tab)
@@ -485,6 +541,101 @@ class Interp:
             env.set(st.name, Closure(st, env))
         else:
             raise Undecided(f"statement {type(st).__name__}")
+
+    def concrete_iter(s, it, node=None):
+        """the items of a python-level iterable with a statically known, concrete length"""
+        if isinstance(it, (list, tuple)):
+            return list(it)
+        if isinstance(it, dict):
+            return list(it)
+        if isinstance(it, range):
+            return list(it)
+        if isinstance(it, (SymRange, SymList)):
+            raise Undecided("python loop over a range of symbolic length (only comprehensions that are parametric in the loop variable are modelled)")
+        if isinstance(it, IdxArr):
+            r = s.intr._concrete_range(it)
+            if r is not None:
+                return r
+        if isinstance(it, Val) and it.axes:
+            n = it.shape[0]
+            if n.is_const() and n.value().denominator == 1 and n.value() <= 64:
+                n = int(n.value())
+                return [s.intr.index(s, it, [("int", k)]) for k in range(n)]
+        raise Undecided(f"iteration over a value without a concrete length: `{ast.unparse(node) if node is not None else type(it).__name__}`")
+
+    def _comprehension(s, gens, env, emit):
+        def rec(k, e):
+            if k == len(gens):
+                emit(e)
+                return
+            g = gens[k]
+            if getattr(g, "is_async", 0):
+                raise Undecided("async comprehension")
+            for item in s.concrete_iter(s.ev(g.iter, e), g.iter):
+                e2 = Env(parent=e)
+                s.assign(g.target, item, e2)
+                ok = True
+                for c in g.ifs:
+                    t = s.truth(s.ev(c, e2), c)
+                    if t is None:
+                        raise Undecided("comprehension filter on unknown")
+                    if not t:
+                        ok = False
+                        break
+                if ok:
+                    rec(k + 1, e2)
+        rec(0, env)
+
+    def ev_ListComp(s, e, env):
+        sym = s._symbolic_comprehension(e, env)
+        if sym is not None:
+            return sym
+        out = []
+        s._comprehension(e.generators, env, lambda e2: out.append(s.ev(e.elt, e2)))
+        return out
+
+    def _symbolic_comprehension(s, e, env):
+        """comprehension whose generators all run over range(<symbolic size>) without filters: the element is evaluated once with
+        the loop variables bound to generic positions (the same device as vmap's ambient index)"""
+        its = []
+        e2 = env
+        for g in e.generators:
+            it = s.ev(g.iter, e2)
+            if not isinstance(it, SymRange):
+                if its:
+                    raise Undecided("comprehension mixing symbolic and concrete ranges")
+                return None
+            if g.ifs or not isinstance(g.target, ast.Name):
+                raise Undecided("filtered / destructuring comprehension over a symbolic range")
+            k = nf.fresh(it.n, "c")
+            its.append(k)
+            e2 = Env(parent=e2)
+            e2.set(g.target.id, SymIndex(k))
+        for k in its:
+            nf.ST.ambient.add(k)
+        try:
+            val = s.ev(e.elt, e2)
+        finally:
+            for k in its:
+                nf.ST.ambient.discard(k)
+        return SymList(its, val)
+
+    def ev_GeneratorExp(s, e, env):
+        return s.ev_ListComp(e, env)
+
+    def ev_SetComp(s, e, env):
+        return set(s.ev_ListComp(e, env))
+
+    def ev_DictComp(s, e, env):
+        out = {}
+
+        def emit(e2):
+            out[s.ev(e.key, e2)] = s.ev(e.value, e2)
+        s._comprehension(e.generators, env, emit)
+        return out
+
+    def ev_Starred(s, e, env):
+        raise Undecided("starred expression outside a call")
 
     def _assume(s, test, env):
         """record `a <= b` / `a < b` facts of the analysed code's own (undecidable) guards for later slice checks."""
@@ -628,7 +779,9 @@ class Interp:
         b = s.intr.builtin(s, name)
         if b is not None:
             return b
-        raise PyRaise("NameError", name, s.site)
+        # a name the program model cannot resolve is far more likely a gap of the model (module-level state, an import form it
+        # does not follow) than a NameError of the library on a path its tests exercise: incomplete analysis, not a refutation
+        raise Undecided(f"name `{name}` is not resolved by the program model (in {s.site[1]})")
 
     def ev(s, e, env):
         m = getattr(s, "ev_" + type(e).__name__, None)
@@ -768,6 +921,10 @@ class Interp:
         return s.binop(e.op, s.ev(e.left, env), s.ev(e.right, env))
 
     def binop(s, op, l, r):
+        if isinstance(l, IdxArr):
+            l = s.intr._arr(l)
+        if isinstance(r, IdxArr):
+            r = s.intr._arr(r)
         if isinstance(l, Val) or isinstance(r, Val):
             return s.intr.array_binop(s, op, l, r)
         if is_num(l) and is_num(r):
@@ -867,9 +1024,11 @@ class Interp:
                     key.append(("int", v))
                 elif isinstance(v, IdxArr):
                     key.append(("idx", v))
+                elif isinstance(v, SymIndex):
+                    key.append(("sym", v.var))
                 elif isinstance(v, tuple) and all(isinstance(q, IdxArr) for q in v):
-                    # result of jnp.ix_
-                    key.extend(("idx", q) for q in v)
+                    # result of jnp.ix_: an open mesh, array i lives on result axis i
+                    key.extend(("idx", q, (i, len(v))) for i, q in enumerate(v))
                 elif isinstance(v, Val):
                     raise Undecided("indexing with a traced array")
                 else:
